@@ -99,7 +99,7 @@ func runBubble(t *testing.T, sc *gen.Scenario, trace bool, body func(e *Env)) *h
 	if out.Leak != "" && strings.Contains(msg, "deadlock") {
 		msg = ""
 	}
-	if msg != "" && out.Infra == "" && out.Violation == nil {
+	if msg != "" && out.Infra == "" && out.Violation == nil && out.Skip == "" {
 		if strings.Contains(msg, "deadlock") {
 			out.Infra = "bubble deadlock (goroutines left blocked at end of run): " + msg
 		} else {
